@@ -21,6 +21,11 @@ def guards(cfg, nid, disabled=None):
     node that dominates nid and from which nid is reachable through exactly one
     of its two edges (early-return style guards included).  'for' heads give
     (ast.For, 'iter')."""
+    gc = getattr(cfg, "_guard_cache", None)
+    if gc is None:
+        gc = cfg._guard_cache = {}
+    if not disabled and nid in gc:
+        return list(gc[nid])
     dom = cfg.dominators(disabled)
     out = []
     if nid not in dom:
@@ -38,6 +43,8 @@ def guards(cfg, nid, disabled=None):
             out.append((n.ast, True))
         elif via.get("F") and not via.get("T"):
             out.append((n.ast, False))
+    if not disabled:
+        gc[nid] = list(out)
     return out
 
 
